@@ -259,6 +259,28 @@ Proof. apply prealloc_safe. Qed.
 Theorem shrink_value_safe s extra : inv s -> inv (snd (shrink_to_fit s extra)) /\ abs (snd (shrink_to_fit s extra)) = abs s.
 Proof. apply shrink_safe. Qed.
 
+(* "mode agrees with the capacity threshold": after ShrinkToFit() a String that fits the small buffer lives there,
+   any other String owns a heap buffer of exactly Length()+1 bytes *)
+Theorem shrink_mode s : inv s -> slen s + 1 < 2147483648 ->
+  let s' := snd (shrink_to_fit s 0) in
+  (slen s <= M -> is_long s' = false) /\ (M < slen s -> is_long s' = true /\ StrModel.cap M s' = slen s + 1).
+Proof.
+  intros I B s'. unfold s', StrModel.shrink_to_fit.
+  pose proof (inv_lt s I) as Lt. pose proof (inv_len s I) as Ln.
+  rewrite N.min_0_l, N.add_0_r. rewrite u32_small by lia.
+  unfold StrModel.ensure.
+  destruct (slen s + 1 =? StrModel.cap M s) eqn:E1.
+  { apply N.eqb_eq in E1. cbn [snd]. destruct s as [b|h n c]; cbn [StrModel.cap StrModel.slen is_long] in *.
+    - split; [reflexivity|intros; lia].
+    - destruct I as (_ & _ & _ & I4). split; [intros; lia|intros; split; [reflexivity|lia]]. }
+  cbn [orb]. rewrite N.ltb_irrefl.
+  assert (X : (slen s + 1 =? 0) = false) by (apply N.eqb_neq; lia). rewrite X.
+  assert (Y : (2147483648 <=? slen s + 1) = false) by (apply N.leb_gt; lia). rewrite Y.
+  destruct (slen s + 1 <=? M + 1) eqn:E2; [apply N.leb_le in E2|apply N.leb_gt in E2];
+    destruct (is_long s); cbn [andb snd]; split; intros H; try lia;
+    try reflexivity; try (split; reflexivity).
+Qed.
+
 End Final.
 
 (* ------------------------------------------------------------------ the tree as pinned (fixed = false) *)
@@ -324,6 +346,7 @@ Definition c17_alias_eq jk := alias_eq cM cTH cPG cOV jk cM_pos cTH_ge cPG_pos c
 Definition c17_flatten_roundtrip jk := flatten_roundtrip cM cTH cPG cOV jk cM_pos cTH_ge cPG_pos cPG_le cOV_lt cM_le.
 Definition c17_unflatten_rejects jk := unflatten_rejects_unterminated cM cTH cPG cOV jk cM_pos cTH_ge cPG_pos cPG_le cOV_lt cM_le.
 Definition c17_nul_string_truncates jk := nul_string_truncates cM cTH cPG cOV jk cM_pos cTH_ge cPG_pos cPG_le cOV_lt cM_le.
+Definition c17_shrink_mode jk := shrink_mode cM cTH cPG cOV jk cM_pos cTH_ge cPG_pos cPG_le cOV_lt cM_le.
 Definition c17_prealloc_value_safe jk := prealloc_value_safe cM cTH cPG cOV jk cM_pos cTH_ge cPG_pos cPG_le cOV_lt cM_le.
 Definition c17_shrink_value_safe jk := shrink_value_safe cM cTH cPG cOV jk cM_pos cTH_ge cPG_pos cPG_le cOV_lt cM_le.
 
